@@ -170,7 +170,7 @@ func init() {
 			return "", err
 		}
 		explore.PinSeed(0)
-		c := explore.NewLocalCtx("C04")
+		c := explore.NewLocalCtx(fmt.Sprint(rep["_property"]))
 		_, v := c04FaultCase(c, base, fmt.Sprint(rep["base"]), fmt.Sprint(rep["cfg"]), word[:len(word)-1], word[len(word)-1], int(numField(rep, "fault_at")), recMemo{}, boolField(rep, "partial"))
 		if v != nil {
 			return v.What, nil
